@@ -200,7 +200,37 @@ def lookalike(name: str):
     }[name]
 
 
+class DefM(State):
+    """attributes whose annotation admits MISSING while their default is something else"""
+
+    retries: int | Missing = 3
+    label: str | Missing = "dflt"
+    tail: Any | Missing = MISSING
+    n: int = 0
+
+
+def deep_shapes(tier: str):
+    """DEEP chains: 4..8 (12) containers under one state attribute (tuples, dicts, lists, mixed),
+    also under validated Sequence / Mapping attributes and two states deep"""
+    pats = (("tuple",), ("dict",), ("list",), ("tuple", "dict"), ("dict", "tuple", "list"))
+    for d in (4, 5, 6, 8) if tier == "quick" else (4, 5, 6, 7, 8, 12):
+        for pat in pats:
+            for top in ("state", "qstate", "mstate", "two"):
+                sh = "M"
+                for lvl in reversed(range(d)):
+                    sh = [pat[lvl % len(pat)], sh]
+                yield [top, sh]
+                if top == "state" and d <= 5:
+                    yield ["state", ["tuple", ["state", sh]]]
+
+
 def programs(tier: str):
+    for s in deep_shapes(tier):
+        for o in ("copy", "deepcopy"):
+            yield {"family": "obtain", "shape": s, "how": o}
+    for given in ("retries", "label", "tail", "retries+label"):
+        for how in ("copy", "deepcopy", "updated", "nested-copy", "nested-deepcopy"):
+            yield {"family": "defaulted", "given": given, "how": how}
     for s in shapes(BOUNDS[tier]["depth"]):
         for o in OBTAINERS:
             if o == "call" and s != "M":
@@ -285,6 +315,35 @@ def execute(program, ch: Chooser) -> Result:  # noqa: C901, PLR0912, PLR0915
                         viols.append(viol("as-dict", f"{how}-raises", "dict", repr(exc)[:100]))
         outcome = f"obtain/{how}/{'skipped' if skipped else 'value'}"
         return Result(outcome, shape != "M", viols, {"shape": shape, "how": how, "skipped": skipped}, steps=2)
+    if fam == "defaulted":
+        # an explicit MISSING for an attribute whose default is not MISSING: whatever the instance
+        # holds (the default, or MISSING), every way of copying it yields the same - and the one
+        # MISSING object wherever the original holds it
+        given, how = program["given"], program["how"]
+        kw = {k_: MISSING for k_ in given.split("+")}
+        try:
+            orig = DefM(n=1, **kw)
+            box = Holder(v=orig, n=2)
+            if how == "copy":
+                res = copy.copy(orig)
+            elif how == "deepcopy":
+                res = copy.deepcopy(orig)
+            elif how == "updated":
+                res = orig.updated(n=1)
+            elif how == "nested-copy":
+                res = copy.copy(box).v
+            else:
+                res = copy.deepcopy(box).v
+        except Exception as exc:  # noqa: BLE001
+            viols.append(viol("obtain", f"defaulted/{how}-raises", "an instance", f"{type(exc).__name__}: {exc}"[:120]))
+            return Result(f"defaulted/{how}/raises", True, viols, program, steps=2)
+        for attr in ("retries", "label", "tail"):
+            a, b = getattr(orig, attr), getattr(res, attr)
+            if (a is MISSING) != (b is MISSING) or (a is not MISSING and a != b):
+                viols.append(viol("singleton", f"defaulted/{how}/{attr}", f"{'the one MISSING object' if a is MISSING else repr(a)} (as in the original)", repr(b)[:60], given=given))
+        if orig.tail is not MISSING:
+            viols.append(viol("singleton", "defaulted/left-out", "the one MISSING object", repr(orig.tail)[:60]))
+        return Result(f"defaulted/{how}/{given}", True, viols, program, steps=4)
     if fam == "after":
         name = program["value"]
         x = lookalike(name)
